@@ -763,10 +763,14 @@ impl SpillableHashAggregateExec {
         let input_types: Vec<arrow::datatypes::DataType> = self
             .aggregates
             .iter()
-            .map(|a| {
-                a.input
-                    .data_type(&plan_schema)
-                    .unwrap_or(arrow::datatypes::DataType::Float64)
+            .enumerate()
+            .map(|(i, a)| {
+                let out = self
+                    .schema
+                    .fields()
+                    .get(self.group_by.len() + i)
+                    .map(|f| f.data_type());
+                crate::physical::morsel_agg::agg_input_type(&a.input, &a.func, &plan_schema, out)
             })
             .collect();
         let agg_funcs: Vec<AggregateFunction> = self.aggregates.iter().map(|a| a.func).collect();
